@@ -128,7 +128,8 @@ def dual_compare(a, b):
 # dual table for whole arms --------------------------------------------------------------
 NAME_DUAL = {"min": "max", "max": "min", "argmin": "argmax", "argmax": "argmin", "nanmin": "nanmax", "nanmax": "nanmin",
              "nanargmin": "nanargmax", "nanargmax": "nanargmin", "min_metrics": "max_metrics", "max_metrics": "min_metrics",
-             "minimum": "maximum", "maximum": "minimum", "idxmin": "idxmax", "idxmax": "idxmin"}
+             "minimum": "maximum", "maximum": "minimum", "idxmin": "idxmax", "idxmax": "idxmin",
+             "cummin": "cummax", "cummax": "cummin", "nsmallest": "nlargest", "nlargest": "nsmallest"}
 INF_NAMES = ("inf", "np_inf", "infty")
 
 
